@@ -108,17 +108,13 @@ def run(ctx, rep):
     import rules.c15 as c15
     for b, i, t, msg, ops, why in P.assert_sites(F, rb):
         shapes = tuple(P.shape(o) for o in ops)
-        al = c15._role_alias(F, b)
-        reason = why or c15.AUDITED.get((b.short, msg) + shapes) or c15.AUDITED.get((b.short, msg)) or \
-            (al and (c15.AUDITED.get((al, msg) + shapes) or c15.AUDITED.get((al, msg))))
+        reason = why or c15.audit_reason(F, b, msg, *shapes)
         rep.ob("R2", f"{b.short}:{msg}:{'|'.join(shapes)}"[:160], reason is not None,
                reason or f"unproven may-panic reachable from an MCP handler: Assert({msg}) on {', '.join(show(o)[:60] for o in ops)} ({P.path_from(parent, b.id)})",
                b.loc(t["sp"]), key=f"R2:{b.short}:{msg}")
     for b, i, t, cont, ity, idx, why in P.index_sites(F, rb):
         kind = "index" if ity == "usize" else ("str-range" if cont.endswith("str") else "range:" + ity.split("::")[-1][:24])
-        al = c15._role_alias(F, b)
-        reason = why or c15.AUDITED.get((b.short, kind)) or c15.RANGE_AUDIT.get((b.short, kind)) or \
-            (al and (c15.AUDITED.get((al, kind)) or c15.RANGE_AUDIT.get((al, kind))))
+        reason = why or c15.audit_reason(F, b, kind, P.shape(idx))
         rep.ob("R2", f"{b.short}:{kind}:{P.shape(idx)}"[:160], reason is not None,
                reason or f"unproven may-panic reachable from an MCP handler: {cont.split('<')[0]}[{show(idx)[:60]}]",
                b.loc(t["sp"]), key=f"R2:{b.short}:{kind}:{P.shape(idx)}"[:200])
